@@ -806,7 +806,11 @@ def writeDB(filename, catalog, meta=None):
         stmnt = 'INSERT INTO {0} ({1}) VALUES ({2})'.format(
             tn, ','.join(col_names), ','.join(['?' for i in col_names]))
         # expend the iterators that are created by python 3+
-        data = list(map(nulls, list(r.as_list() for r in t)))
+        # numpy scalars (sources re-loaded from a table) are not understood
+        # by sqlite3, which would store their raw bytes
+        data = list(map(nulls, list(
+            [v.item() if isinstance(v, np.generic) else v
+             for v in r.as_list()] for r in t)))
         db.executemany(stmnt, data)
         log.info("Created table {0}".format(tn))
     # metadata add some meta data
